@@ -1291,6 +1291,10 @@ void caseMeta(vrt::Case& cs)
     c.parts[0].kind = DOWNHILL; c.parts[0].full = true; c.parts[0].coords.clear();
     for (size_t i = 0; i < n; ++i) c.parts[0].coords.push_back(i);
     nparts = 1;
+    // With 4 precision steps the first stages run at so coarse a tolerance that a restarted simplex may not move at
+    // all and the meta-optimiser's own stop rule fires (about 1e-4 of such runs; the mechanism of the recorded
+    // finding C10-meta-downhill-step): that sub-class is left to the finding's witness group.
+    if (vrt::known("C10-meta-downhill-step") && c.metaN > 3) c.metaN = 3;
   }
   for (size_t i = 0; i < nparts; ++i)
     if (!c.parts[i].coords.empty()) vrt::cover(string("meta:inner:") + kindName(c.parts[i].kind) + (c.parts[i].full ? "/full" : "/step") + ":" + c.policy);
